@@ -42,6 +42,11 @@ Supported
                `join_live_only`: an if/else without return joins only the variables read afterwards;
                `kind` in {lambda_kw, class_guards, assign_rhs, return_rhs}: see harness/py2coq_fourier.py.
   domains    : "Z" (Python int), "Q" (exact rationals standing for floats), "R" (reals).
+  source guards (wave 8, see find_function): the def that is read must be the def Python runs -- a name bound twice in its
+               scope, an undeclared decorator ("decorators", "class_decorators"), a singledispatch(method) whose variant the spec
+               does not name ("dispatch": {"variant", "registered"}), a parameter default the spec does not declare ("defaults"),
+               *args / **kwargs are refused; what was read is recorded in the header comment of the generated module.
+               generate_all: any exception (e.g. a plug-in that cannot be imported) is the failure of that module only.
 """
 from __future__ import annotations
 
@@ -595,21 +600,200 @@ def assign_target_block(ctx: Ctx, stmts, target: str) -> str:
     raise Unsupported(f"statement before the assignment to {target}: {src(s)[:80]}")
 
 
-def find_function(tree: ast.Module, qual: str) -> ast.FunctionDef:
+# ---------------------------------------------------------------------------------------------------------------------------
+# wave 8 (audit5b X-d, top-10 #3): what the translator reads must be what Python runs.  Every resolution of a qualified name
+# (generic path, `kind` emitters, plug-ins -- they all call find_function) now refuses
+#   (a) a name bound more than once in its scope (Python binds the LAST def; also `Cls.meth = ...` / setattr at module level),
+#   (b) a decorator on the resolved def that is neither semantically transparent for the translated body (allow-list below)
+#       nor exactly the list the spec declares ("decorators": [source texts], the key of py2coq_loops.source_guards);
+#       a decorated enclosing class must be declared: "class_decorators": {class qualified name: [source texts]} (module
+#       level or entry level); a decorated enclosing function is refused,
+#   (c) a functools.singledispatch(method) def unless the spec names the variant it reads and pins the registered types:
+#       "dispatch": {"variant": "base" | "<type text>", "registered": [type texts of every `@<meth>.register`, source order]};
+#       a registration of the dispatcher anywhere else in the file (register(...) called as a function) is refused,
+#   (d) parameter defaults other than the ones the spec declares ("defaults": {param: source text}, default none).
+# For a def that a plug-in resolves besides fn["py"] the keys are "decorators_of" / "dispatch_of" /
+# "defaults_of": {qualified name: value}.  What was found is recorded in the header comment of the generated module.
+TRANSPARENT_DECORATORS = {"staticmethod", "classmethod", "property", "cache", "lru_cache", "functools.cache", "functools.lru_cache"}
+DISPATCH_DECORATORS = {"singledispatchmethod", "functools.singledispatchmethod", "singledispatch", "functools.singledispatch"}
+_CURRENT: list = []      # stack of (spec, fn) being translated: find_function reads the declarations of the top one
+_RECORDS: list = []      # stack of lists: one per generate_module in progress, collects "what was resolved" lines for the header
+
+
+def _declared(fn, key: str, qual: str, default=None):
+    if fn is None:
+        return default
+    if key in fn and fn.get("py", qual) == qual:
+        return fn[key]
+    return fn.get(key + "_of", {}).get(qual, default)
+
+
+def _bindings(stmts, name: str) -> list:
+    """nodes that bind `name` in the scope whose body is `stmts` (defs / classes / lambdas / comprehensions are not entered)"""
+    hits = []
+
+    def visit(n):
+        if isinstance(n, (ast.FunctionDef, ast.AsyncFunctionDef, ast.ClassDef)):
+            if n.name == name:
+                hits.append(n)
+            return
+        if isinstance(n, (ast.Lambda, ast.ListComp, ast.SetComp, ast.DictComp, ast.GeneratorExp)):
+            return
+        if isinstance(n, (ast.Import, ast.ImportFrom)) and any((a.asname or a.name.split(".")[0]) == name for a in n.names):
+            hits.append(n)
+        if isinstance(n, ast.Name) and n.id == name and isinstance(n.ctx, (ast.Store, ast.Del)):
+            hits.append(n)
+        for c in ast.iter_child_nodes(n):
+            visit(c)
+    for s in stmts:
+        visit(s)
+    return hits
+
+
+def _is_transparent(dec) -> bool:
+    s = src(dec.func) if isinstance(dec, ast.Call) else src(dec)
+    if isinstance(dec, ast.Call) and s not in ("lru_cache", "functools.lru_cache"):
+        return False
+    return s in TRANSPARENT_DECORATORS
+
+
+def _defaults_of(node) -> dict:
+    a = node.args
+    pos = list(a.posonlyargs) + list(a.args)
+    out = {p.arg: src(d) for p, d in zip(pos[len(pos) - len(a.defaults):], a.defaults)}
+    out.update({p.arg: src(d) for p, d in zip(a.kwonlyargs, a.kw_defaults) if d is not None})
+    return out
+
+
+def _dispatch_variants(tree, scope, meth: str, qual: str) -> list:
+    """[(registered type text, def)] of the singledispatch(method) `meth` defined in `scope`, in source order"""
+    out, seen = [], set()
+    for n in scope:
+        if isinstance(n, (ast.FunctionDef, ast.AsyncFunctionDef)):
+            for d in n.decorator_list:
+                s = src(d)
+                if s == f"{meth}.register":
+                    args = [x for x in list(n.args.posonlyargs) + list(n.args.args) if x.arg not in ("self", "cls")]
+                    if not args or args[0].annotation is None:
+                        raise Unsupported(f"{qual}: variant at line {n.lineno} registered without a type annotation")
+                    out.append((src(args[0].annotation), n))
+                    seen.add(id(d))
+                elif isinstance(d, ast.Call) and src(d.func) == f"{meth}.register" and len(d.args) == 1 and not d.keywords:
+                    out.append((src(d.args[0]), n))
+                    seen.add(id(d.func))
+                elif s == meth or s.startswith(f"{meth}.") or s.startswith(f"{meth}("):
+                    raise Unsupported(f"{qual}: decorator {s} at line {n.lineno} uses the dispatcher in an unsupported way")
+    for x in ast.walk(tree):        # every other mention of <...>meth.register / .dispatch / .registry in the file: refused
+        if isinstance(x, ast.Attribute) and x.attr in ("register", "dispatch", "registry", "_clear_cache") and id(x) not in seen \
+                and (src(x.value) == meth or src(x.value).endswith("." + meth)):
+            raise Unsupported(f"{qual}: `{src(x)}` at line {x.lineno} is used outside a plain `@{meth}.register` decorator")
+    return out
+
+
+def _comment_safe(s: str) -> str:
+    return s.replace("(*", "( *").replace("*)", "* )").replace("\n", " ")
+
+
+def find_function(tree: ast.Module, qual: str, fn=None) -> ast.FunctionDef:
+    """the def that Python binds to `qual`, checked against the declarations of the spec entry `fn` (default: the entry that is
+    being translated); refuses (Unsupported) in the cases (a)-(d) above"""
+    spec = None
+    if fn is None and _CURRENT:
+        spec, fn = _CURRENT[-1]
     parts = qual.split(".")
-    scope = tree.body
-    node = None
-    for p in parts:
-        node = next((n for n in scope if isinstance(n, (ast.FunctionDef, ast.ClassDef)) and n.name == p), None)
-        if node is None:
+    scope, node, class_decs = tree.body, None, {}
+    for i, p in enumerate(parts):
+        hits = _bindings(scope, p)
+        if not hits:
             raise Unsupported(f"{qual}: not found in source")
-        scope = node.body
+        if len(hits) != 1:
+            raise Unsupported(f"{qual}: `{p}` is bound {len(hits)} times in its scope (lines "
+                              f"{[getattr(h, 'lineno', '?') for h in hits]}); Python runs the last binding")
+        node = hits[0]
+        if not isinstance(node, (ast.FunctionDef, ast.ClassDef)):
+            raise Unsupported(f"{qual}: `{p}` is not a def / class (line {getattr(node, 'lineno', '?')})")
+        if isinstance(node, ast.ClassDef) and node.decorator_list:
+            class_decs[".".join(parts[:i + 1])] = [src(d) for d in node.decorator_list]
+        elif i < len(parts) - 1 and node.decorator_list:
+            raise Unsupported(f"{qual}: the enclosing function {p} is decorated: {[src(d) for d in node.decorator_list]}")
+        if i < len(parts) - 1:
+            scope = node.body
     if not isinstance(node, ast.FunctionDef):
         raise Unsupported(f"{qual}: not a function")
+    # (a') re-binding from outside the scope: `A.b = ...`, `del A.b`, setattr(A, "b", ...) anywhere in the file
+    if len(parts) > 1:
+        owner = ".".join(parts[:-1])
+        for x in ast.walk(tree):
+            if isinstance(x, ast.Attribute) and isinstance(x.ctx, (ast.Store, ast.Del)) and x.attr == parts[-1] \
+                    and (src(x.value) == owner or src(x.value) == parts[-2]):
+                raise Unsupported(f"{qual}: re-bound by an assignment to `{src(x)}` at line {x.lineno}")
+            if isinstance(x, ast.Call) and src(x.func) in ("setattr", "delattr") and len(x.args) >= 2 \
+                    and src(x.args[0]) in (owner, parts[-2]) and not (isinstance(x.args[1], ast.Constant) and x.args[1].value != parts[-1]):
+                raise Unsupported(f"{qual}: possibly re-bound by `{src(x)[:60]}` at line {x.lineno}")
+    # (b) decorators
+    want_cls = dict((spec or {}).get("class_decorators", {}))      # {class qualified name: [decorator texts]}, module or entry level
+    want_cls.update((fn or {}).get("class_decorators", {}))
+    for c, decs in class_decs.items():
+        if decs != list(want_cls.get(c, [])):
+            raise Unsupported(f"{qual}: class {c} is decorated {decs}, the spec declares class_decorators {list(want_cls.get(c, []))}")
+    got = [src(d) for d in node.decorator_list]
+    want = _declared(fn, "decorators", qual)
+    if want is not None:
+        if got != list(want):
+            raise Unsupported(f"{qual}: decorators {got}, the spec declares {list(want)}")
+    else:
+        bad = [src(d) for d in node.decorator_list if not _is_transparent(d) and src(d) not in DISPATCH_DECORATORS]
+        if bad:
+            raise Unsupported(f"{qual}: decorator(s) {bad} not declared by the spec (\"decorators\") and not in the transparent allow-list")
+    # (c) singledispatch: the spec names the variant and pins the registered types
+    note = ""
+    if any(g in DISPATCH_DECORATORS for g in got):
+        disp = _declared(fn, "dispatch", qual)
+        variants = _dispatch_variants(tree, scope, node.name, qual)
+        types = [t for t, _ in variants]
+        if not isinstance(disp, dict) or "variant" not in disp or "registered" not in disp:
+            raise Unsupported(f"{qual}: is a {got} dispatcher with registered types {types}; the spec must name the variant it reads: "
+                              f"\"dispatch\": {{\"variant\": \"base\" | <type>, \"registered\": {types}}}")
+        if types != list(disp["registered"]):
+            raise Unsupported(f"{qual}: registered types {types}, the spec pins {list(disp['registered'])}")
+        if len(set(types)) != len(types):
+            raise Unsupported(f"{qual}: a type is registered twice: {types}")
+        note = f" dispatch-variant={disp['variant']} registered={types}"
+        if disp["variant"] != "base":
+            sel = [n for t, n in variants if t == disp["variant"]]
+            if len(sel) != 1 or not isinstance(sel[0], ast.FunctionDef):
+                raise Unsupported(f"{qual}: {len(sel)} variants registered for {disp['variant']}")
+            node = sel[0]
+            if len(node.decorator_list) != 1:
+                raise Unsupported(f"{qual}: the {disp['variant']} variant carries decorators {[src(d) for d in node.decorator_list]}")
+    elif _declared(fn, "dispatch", qual) is not None:
+        raise Unsupported(f"{qual}: the spec declares a dispatch variant but the def is not a singledispatch(method): {got}")
+    # (d) defaults
+    dflt, want_d = _defaults_of(node), dict(_declared(fn, "defaults", qual, {}))
+    if dflt != want_d:
+        raise Unsupported(f"{qual}: parameter defaults {dflt}, the spec declares {want_d}")
+    if node.args.vararg is not None or node.args.kwarg is not None:
+        if not _declared(fn, "star_args", qual, False):
+            raise Unsupported(f"{qual}: *args / **kwargs in the signature (declare \"star_args\": True if the plug-in handles them)")
+    if _RECORDS:
+        line = (f"(* read {qual}: decorators={got} class_decorators={class_decs}{note} defaults={dflt} *)")
+        line = "(* " + _comment_safe(line[3:-3]) + " *)"
+        if line not in _RECORDS[-1]:
+            _RECORDS[-1].append(line)
     return node
 
 
 def translate_function(tree, spec, fn) -> str:
+    """one spec entry -> one Definition; the entry is on the _CURRENT stack while it is translated, so that every
+    find_function of the generic path, the `kind` emitters and the plug-ins is checked against its declarations"""
+    _CURRENT.append((spec, fn))
+    try:
+        return _translate_function(tree, spec, fn)
+    finally:
+        _CURRENT.pop()
+
+
+def _translate_function(tree, spec, fn) -> str:
     if "kind" in fn:   # special emitters (lambda conditions, class-level guards, one assignment's rhs): harness/py2coq_fourier.py
         import py2coq_fourier
         return py2coq_fourier.KINDS[fn["kind"]](tree, spec, fn)
@@ -658,40 +842,70 @@ HEADERS = {
 
 def generate_module(repo: Path, name: str, spec) -> str:
     out = [f"(* GENERATED by harness/py2coq.py from {spec['file']} -- do not edit *)", spec.get("header") or HEADERS[spec.get("dom", "Z")]]
-    tree = ast.parse((repo / spec["file"]).read_text())
-    extra_trees = {}
-    if spec.get("section"):
-        out.append(f"Section {name}.")
-        for v, t in spec["section"]:
-            out.append(f"Variable {v} : {t}.")
-    for fn in spec["funcs"]:
-        t = tree
-        if "file" in fn:
-            if fn["file"] not in extra_trees:
-                extra_trees[fn["file"]] = ast.parse((repo / fn["file"]).read_text())
-            t = extra_trees[fn["file"]]
-        out.append(translate_function(t, spec, fn))
-    if spec.get("section"):
-        out.append(f"End {name}.")
+    _RECORDS.append([])
+    try:
+        tree = ast.parse((repo / spec["file"]).read_text())
+        extra_trees = {}
+        if spec.get("section"):
+            out.append(f"Section {name}.")
+            for v, t in spec["section"]:
+                out.append(f"Variable {v} : {t}.")
+        for fn in spec["funcs"]:
+            t = tree
+            if "file" in fn:
+                if fn["file"] not in extra_trees:
+                    extra_trees[fn["file"]] = ast.parse((repo / fn["file"]).read_text())
+                t = extra_trees[fn["file"]]
+            out.append(translate_function(t, spec, fn))
+        if spec.get("section"):
+            out.append(f"End {name}.")
+        records = _RECORDS[-1]
+    finally:
+        _RECORDS.pop()
+    # header comments: which def was read for each qualified name, with its decorators, dispatch variant and defaults
+    out[1:1] = records
     return "\n".join(out) + "\n"
+
+
+def load_specs():
+    """(SPECS, failures): the merged table of harness/specs/*.py.  A spec file that cannot be imported (or repeats a module
+    name) is reported under the key `specs/<file>.py` instead of aborting the generation of every other module."""
+    import importlib
+    import pkgutil
+    import specs
+    table, failures = {}, {}
+    for m in sorted(pkgutil.iter_modules(specs.__path__), key=lambda m: m.name):
+        try:
+            mod = importlib.import_module(f"specs.{m.name}")
+            for k, v in mod.SPECS.items():
+                if k in table:
+                    raise RuntimeError(f"duplicate Gen module name {k}")
+                table[k] = v
+        except Exception as e:   # noqa: BLE001 -- reported, never skipped silently
+            failures[f"specs/{m.name}.py"] = f"{type(e).__name__}: {e}"
+    return table, failures
 
 
 def generate_all(repo: Path, outdir: Path, only=None):
     """Regenerates every Gen module.  Returns (changed, failures): a module whose source no longer
     fits the supported subset is reported in `failures` (its stale .v is removed so nothing can be
-    proved against an out-of-date model)."""
-    from py2coq_specs import SPECS
+    proved against an out-of-date model).  ANY exception while one module is generated (a plug-in named in the spec that
+    cannot be imported, a plug-in bug) is that module's failure only: the other modules are still generated (audit5b X-a).
+    A name in `only` that no spec defines is a failure too (it used to be skipped silently)."""
+    SPECS, failures = load_specs()
     outdir.mkdir(parents=True, exist_ok=True)
-    changed, failures = [], {}
+    changed = []
+    for name in sorted(set(only or ()) - set(SPECS)):
+        failures[name] = "no spec defines this module" + (f" (spec files that failed to load: {sorted(failures)})" if failures else "")
     for name, spec in SPECS.items():
         if only is not None and name not in only:
             continue
         f = outdir / f"{name}.v"
         try:
             text = generate_module(repo, name, spec)
-        except (Unsupported, SyntaxError, OSError, KeyError, IndexError) as e:
+        except Exception as e:   # noqa: BLE001 -- fail closed per module: Unsupported, SyntaxError, OSError, ImportError, plug-in bugs ...
             failures[name] = f"{type(e).__name__}: {e}"
-            text = f"(* py2coq FAILED on {spec['file']}: see check output *)\nDefinition py2coq_failed : True := I.\n"
+            text = f"(* py2coq FAILED on {spec.get('file', '?')}: see check output *)\nDefinition py2coq_failed : True := I.\n"
         if not f.exists() or f.read_text() != text:
             f.write_text(text)
             changed.append(name)
@@ -702,4 +916,14 @@ if __name__ == "__main__":
     import sys
     repo = Path(sys.argv[1]) if len(sys.argv) > 1 else Path("/repo")
     out = Path(__file__).resolve().parent.parent / "coq" / "Gen"
-    print("changed:", generate_all(repo, out))
+    # run the module the plug-ins import (`import py2coq`), not this `__main__` copy of it: the plug-ins' find_function must see the
+    # _CURRENT stack that translate_function fills, and their Unsupported must be the class generate_all knows
+    sys.path.insert(0, str(Path(__file__).resolve().parent))
+    import py2coq as _canonical
+    changed, failures = _canonical.generate_all(repo, out)
+    print("changed:", (changed, failures))
+    # one line per broken obligation (setup.sh prints this); the build goes on: every check whose GEN_DEPS name a failed module
+    # reports it as a broken obligation itself (common.regen_and_make), the others are not affected
+    for name, why in failures.items():
+        print(f"py2coq: BROKEN OBLIGATION {name}: {why}")
+    print(f"py2coq: {len(failures)} module(s) / spec file(s) failed" if failures else "py2coq: all modules generated")
